@@ -145,6 +145,9 @@ extern "C" void harness_perpath_cleanup() {
 #ifndef GIL
 #define GIL 4
 #endif
+#ifndef LIL
+#define LIL 5
+#endif
 static const Point64* g_rp; static bool g_cross[4]; static Point64 g_p, g_p2; static int g_seg_calls;
 static int edge_of(const Point64* a, const Point64* b) {
   long i = a - g_rp, j = b - g_rp;
